@@ -1192,7 +1192,15 @@ class InterpMixin:
             return wrap(z3.simplify(z3.Select(c.val, kt)))
         if isinstance(c, SymSeq):
             if isinstance(k, slice):
-                raise Unsupported("slice of symbolic sequence")
+                if k.step not in (None, 1) or isinstance(k.start, Sym) or isinstance(k.stop, Sym) or (k.start or 0) < 0 or (k.stop is not None and k.stop < 0):
+                    raise Unsupported("slice of symbolic sequence")
+                a = k.start or 0
+                nt = to_term(c.length)
+                hi = nt if k.stop is None else z3.If(nt < k.stop, nt, z3.IntVal(k.stop))
+                ln = z3.simplify(z3.If(hi - a > 0, hi - a, z3.IntVal(0)))
+                out = SymSeq(SymInt(ln), lambda t, c=c, a=a: c.elem(t + a), name=f"{c.name}[{a}:{'' if k.stop is None else k.stop}]")
+                out.slice_of = (c, a)
+                return out
             n = c.length
             inb = sym_and(k >= 0, k < n) if (is_sym(k) or is_sym(n)) else (0 <= k < n)
             if not self.truth(inb):
